@@ -70,9 +70,42 @@ fn shape_groups(mask: u8, mode: u64, salt: u16) -> [u16; 8] {
     g
 }
 
+/// A formatter sink that accepts `room` bytes and then fails.
+struct Limited {
+    room: usize,
+}
+impl std::fmt::Write for Limited {
+    fn write_str(&mut self, s: &str) -> std::fmt::Result {
+        if s.len() > self.room {
+            self.room = 0;
+            return Err(std::fmt::Error);
+        }
+        self.room -= s.len();
+        Ok(())
+    }
+}
+
 fn judge_value(v: &A1, rec: &mut Recorder) {
     let case = format!("val:{}", a1_text(v));
     rec.case(hash_bytes(case.as_bytes()), *v != A1::Unknown);
+    // history: every 4th value is first formatted into a sink that fails part-way (a bounded
+    // buffer); formatting is a pure function of the value, so this must leave no trace
+    if hash_bytes(case.as_bytes()) % 4 == 0 {
+        let room = (hash_bytes(case.as_bytes()) >> 8) as usize % 40;
+        let r = guard(|| {
+            use std::fmt::Write;
+            let mut sink = Limited { room };
+            let a = write!(sink, "{}", to_ppp(v)).is_err();
+            let mut sink2 = Limited { room: room / 2 };
+            let b = write!(sink2, "{}", to_ppp(&A1::Tcp4 { src: [9, 9, 9, 9], dst: [8, 8, 8, 8], sp: 9, dp: 8 })).is_err();
+            (a, b)
+        });
+        rec.events(2);
+        match r {
+            Ok(_) => rec.class("history:formatted-into-a-failing-sink-first", || case.clone()),
+            Err(m) => rec.violation("panic", case.clone(), "failing-sink".into(), format!("Display into a failing sink panicked: {}", m)),
+        }
+    }
     let r = guard(|| to_ppp(v).to_string());
     rec.event();
     let viol = |rec: &mut Recorder, rule: &str, line: &str, detail: String| {
@@ -181,9 +214,9 @@ impl Monitor for C08 {
     fn streams(&self, tier: Tier) -> Vec<StreamSpec> {
         vec![
             exhaustive("c08-unknown", 1),
-            stream("c08-v4", tier.n(50, 250_000, 25_000_000)),
+            stream("c08-v4", tier.n(50, 1_000_000, 25_000_000)),
             exhaustive("c08-v6-shapes", if tier == Tier::Miri { 64 } else { 256 * 3 * 16 }),
-            stream("c08-v6", tier.n(50, 250_000, 25_000_000)),
+            stream("c08-v6", tier.n(50, 1_000_000, 25_000_000)),
             stream("v1-valid", tier.n(50, 200_000, 20_000_000)),
             stream("v1-mut", tier.n(50, 100_000, 10_000_000)),
             stream("v1-eol", tier.n(20, 50_000, 5_000_000)),
